@@ -9,10 +9,10 @@ namespace Bench
 
 namespace Expected
 def regexes : List (String × String × Bool) :=
-  [("findall", "(?:INPUT|input)\\s*\\(\\s*([a-zA-Z][a-zA-Z\\d_]*)\\s*\\)", true),
-   ("findall", "([a-zA-Z][a-zA-Z\\d_]*)\\s*=\\s*(buf|buff|not|or|nor|and|nand|xor|xnor|BUF|BUFF|NOT|OR|NOR|AND|NAND|XOR|XNOR)\\s*\\(([^\\)]+)\\)", false),
-   ("findall", "([a-zA-Z][a-zA-Z\\d_]*)\\s*=\\s*(DFF|dff)\\s*\\(([^\\)]+)\\)", false),
-   ("findall", "(?:OUTPUT|output)\\s*\\(\\s*([a-zA-Z][a-zA-Z\\d_]*)\\s*\\)", true)]
+  [("findall", "(?:INPUT|input)\\s*\\(\\s*([a-zA-Z_][a-zA-Z\\d_]*)\\s*\\)", true),
+   ("findall", "([a-zA-Z_][a-zA-Z\\d_]*)\\s*=\\s*(buf|buff|not|or|nor|and|nand|xor|xnor|BUF|BUFF|NOT|OR|NOR|AND|NAND|XOR|XNOR)\\s*\\(([^\\)]+)\\)", false),
+   ("findall", "([a-zA-Z_][a-zA-Z\\d_]*)\\s*=\\s*(DFF|dff)\\s*\\(([^\\)]+)\\)", false),
+   ("findall", "(?:OUTPUT|output)\\s*\\(\\s*([a-zA-Z_][a-zA-Z\\d_]*)\\s*\\)", true)]
 end Expected
 
 def regexes : List (String × String × Bool) := Generated.regex_bench.getD Expected.regexes
